@@ -169,10 +169,12 @@ class WeightedProbabilityBasedSquaredError(ProbabilityBasedLossFunction):
                 )
 
                 extracted_mat_inv = np.linalg.inv(extracted_mat)
+                # the inverse of a symmetric matrix is symmetric; remove the rounding asymmetry of inv
+                extracted_mat_inv = (extracted_mat_inv + extracted_mat_inv.T) / 2
                 if row == 2 and col == 2:
                     weight_matrix[0, 0] = extracted_mat_inv[0, 0]
                 else:
-                    weight_matrix[:row, :col] = extracted_mat_inv
+                    weight_matrix[: row - 1, : col - 1] = extracted_mat_inv
                 weight_matrices.append(weight_matrix)
 
             self.set_weight_matrices(weight_matrices)
